@@ -31,11 +31,9 @@ class SymKDTree:
         return tuple(self._p(j, d) for d in range(self.m))
 
     def d2(self, x, j):
-        tot = 0
-        for d in range(self.m):
-            diff = x[d] - self._p(j, d)
-            tot = tot + diff * diff
-        return tot
+        from .core import sqdist
+
+        return sqdist(tuple(x), self.point(j))
 
     def _queries(self, x):
         x = as_array(x)
@@ -70,8 +68,11 @@ class SymKDTree:
             S.assume(Forall((nq,), lambda q: and_(ia(q) >= 0, ia(q) < n), name="kd.query.index_in_range"))
             S.assume(Forall((nq, n), lambda q, j: self.d2(xq(q), ia(q)) <= self.d2(xq(q), j), name="kd.query.nearest"))
             dist = new_array((nq,), lambda i: spec_sqrt(self.d2(xq(i[0]), ia(i[0]))), "f")
+            c.ghost.setdefault("kd.query", []).append((self, nq, xq, 1, idx))
             return dist, idx
-        return self._query_k(nq, xq, k)
+        dist, idx = self._query_k(nq, xq, k)
+        c.ghost.setdefault("kd.query", []).append((self, nq, xq, k, idx))
+        return dist, idx
 
     def _query_k(self, nq, xq, k):
         c = ctx()
@@ -86,13 +87,19 @@ class SymKDTree:
         # distinctness of all pairs is stated directly)
         S.assume(Forall((nq, k, k), lambda q, s, t: implies(s != t, ia(q, s) != ia(q, t)), name="kd.queryk.distinct"))
         # every point that is not among the k neighbours is at least as far as the k-th
-        member = z3.Function(c.fresh_name("kd_member"), z3.IntSort(), z3.IntSort(), z3.BoolSort())
-        from .core import SymBool, to_z3
+        kc = None if is_sym(k) else int(k)
+        if kc is not None:
+            S.assume(
+                Forall((nq, n), lambda q, j: or_(*([j == ia(q, t) for t in range(kc)] + [self.d2(xq(q), ia(q, kc - 1)) <= self.d2(xq(q), j)])), name="kd.queryk.complement"),
+            )
+        else:
+            member = z3.Function(c.fresh_name("kd_member"), z3.IntSort(), z3.IntSort(), z3.BoolSort())
+            from .core import SymBool, to_z3
 
-        S.assume(Forall((nq, k), lambda q, t: SymBool(member(to_z3(q), to_z3(ia(q, t)))), name="kd.queryk.member"))
-        S.assume(
-            Forall((nq, n), lambda q, j: or_(SymBool(member(to_z3(q), to_z3(j))), self.d2(xq(q), ia(q, k - 1)) <= self.d2(xq(q), j)), name="kd.queryk.complement"),
-        )
+            S.assume(Forall((nq, k), lambda q, t: SymBool(member(to_z3(q), to_z3(ia(q, t)))), name="kd.queryk.member"))
+            S.assume(
+                Forall((nq, n), lambda q, j: or_(SymBool(member(to_z3(q), to_z3(j))), self.d2(xq(q), ia(q, k - 1)) <= self.d2(xq(q), j)), name="kd.queryk.complement"),
+            )
         dist = new_array((nq, k), lambda i: spec_sqrt(self.d2(xq(i[0]), ia(i[0], i[1]))), "f")
         return dist, idx
 
